@@ -153,6 +153,10 @@ func (c *Conn) handleClientHello(record []byte, isRetry bool) (outer, inner *cli
 	if outer, err = parseClientHello(record[5:]); err != nil {
 		return nil, nil, err
 	}
+	// Marshal would silently drop anything that follows the extensions.
+	if len(outer.trailing) > 0 {
+		return nil, nil, fmt.Errorf("%w: trailing data after client_hello", ErrDecodeError)
+	}
 	// Section 5.1
 	// The "ech_outer_extensions" extension can only be included in
 	// EncodedClientHelloInner, and MUST NOT appear in either
@@ -261,6 +265,12 @@ func (c *Conn) processEncryptedClientHello(h *clientHello, isRetry bool) (*clien
 	}
 	if inner.echExt == nil || inner.echExt.Type != 1 {
 		return nil, fmt.Errorf("%w: encrypted_client_hello missing", ErrIllegalParameter)
+	}
+	// Section 5.1: the padding of EncodedClientHelloInner must be all zeros.
+	for _, p := range inner.trailing {
+		if p != 0 {
+			return nil, fmt.Errorf("%w: non-zero padding", ErrIllegalParameter)
+		}
 	}
 	inner.LegacySessionID = h.LegacySessionID
 
